@@ -75,6 +75,10 @@ func exprString(e ast.Expr) string {
 		return exprString(v.X) + " " + v.Op.String() + " " + exprString(v.Y)
 	case *ast.UnaryExpr:
 		return v.Op.String() + exprString(v.X)
+	case *ast.StarExpr:
+		return "*" + exprString(v.X)
+	case *ast.IndexExpr:
+		return exprString(v.X) + "[" + exprString(v.Index) + "]"
 	}
 	return fmt.Sprintf("<%T>", e)
 }
